@@ -107,15 +107,17 @@ func parsePhaseFuncs(w *World) []*ssa.Function {
 			if !ok {
 				return
 			}
-			g := c.Common().StaticCallee()
-			if g == nil || in[g] || g.Pkg != w.Parser || g.Blocks == nil || !w.isSubjectFunc(g) {
-				return
+			// static callees, and the functions a called function value can be (handlers kept in a table, closures)
+			for _, g := range calleesOfAll(c) {
+				if g == nil || in[g] || pkgOfFunc(g) != w.Parser || g.Blocks == nil || !w.isSubjectFunc(g) {
+					continue
+				}
+				if rn := recvNamedCore(g); strings.HasSuffix(rn, "Generator") || strings.HasSuffix(rn, "Formattor") || strings.HasSuffix(rn, "Formatter") {
+					continue
+				}
+				in[g] = true
+				out = append(out, g)
 			}
-			if rn := recvNamedCore(g); strings.HasSuffix(rn, "Generator") || strings.HasSuffix(rn, "Formattor") || strings.HasSuffix(rn, "Formatter") {
-				return
-			}
-			in[g] = true
-			out = append(out, g)
 		})
 	}
 	sortFuncsByName(out)
@@ -1851,6 +1853,12 @@ func c12Options(w *World, r *Report) {
 				case *ssa.Lookup:
 					if s, ok := constString(x.Index); ok {
 						consumed[s] = true
+					}
+					// the key member of the current row of a table: every row's key
+					for _, kv := range w.columnOf(x.Index) {
+						if s, ok := constString(kv); ok {
+							consumed[s] = true
+						}
 					}
 				case ssa.CallInstruction:
 					if g := x.Common().StaticCallee(); g != nil && pkgOfFunc(g) == w.Model {
